@@ -5,43 +5,49 @@ From Coq Require Import List Arith NArith Bool ZArith Lia.
 From NngV Require Import Proto.Common Proto.ReqRepBacktrace Proto.ReqModel Proto.XReqModel Proto.XRepModel Proto.ReqRepProofs.
 Import ListNotations.
 
-Definition mf_pinned : mqfix := mkMqfix false false.
-Definition mf_repaired : mqfix := mkMqfix true true.
+Definition mf_pinned : mqfix := mkMqfix false false false.
+Definition mf_repaired : mqfix := mkMqfix true true true.
 
 (* --- the msgq get entry point with a single new getter --- *)
-Lemma mq_get_ready {G T} (q : mq G T) (g : G) :
+Lemma mq_get_ready {G T} (rp : bool) (q : mq G T) (g : G) :
   mq_get_waits q = false ->
-  exists m q' ev, mq_get q g = (q', ev) /\ In (EvGot g m) ev /\ mq_getq q' = [].
+  exists m q' ev, mq_get rp q g = (q', ev) /\ In (EvGot g m) ev.
 Proof.
   unfold mq_get_waits, mq_get. intros H. apply orb_false_iff in H. destruct H as [H1 H2].
   destruct (mq_getq q) eqn:EG; [|discriminate]. cbn [app length mq_run_getq mq_getq mq_q mq_putq].
   destruct (mq_q q) as [|m rest] eqn:EQ.
   - destruct (mq_putq q) as [|[t m] pr] eqn:EP; [discriminate|].
-    exists m. do 2 eexists. split; [reflexivity|]. split; [right; left; reflexivity|reflexivity].
-  - exists m. do 2 eexists. split; [reflexivity|]. split; [left; reflexivity|reflexivity].
+    exists m. destruct rp.
+    + match goal with |- context [mq_run_putq ?f ?X] => destruct (mq_run_putq f X) as [q2 e2] end.
+      do 2 eexists. split; [reflexivity|]. apply in_or_app. left. right. left. reflexivity.
+    + do 2 eexists. split; [reflexivity|]. right. left. reflexivity.
+  - exists m. destruct rp.
+    + match goal with |- context [mq_run_putq ?f ?X] => destruct (mq_run_putq f X) as [q2 e2] end.
+      do 2 eexists. split; [reflexivity|]. apply in_or_app. left. left. reflexivity.
+    + do 2 eexists. split; [reflexivity|]. left. reflexivity.
 Qed.
 
 (* non-blocking receive on a raw socket, repaired msgq: completes in the step;
    NNG_EAGAIN exactly when the blocking form would have to wait, and then
    nothing changes; otherwise a message is delivered *)
-Lemma xreq_nb_recv_repaired r s c a :
-  (mq_get_waits (xq_urq s) = true -> xreq_step (mkMqfix true r) s (PRecv c a true) = (s, [Complete a E_AGAIN None])) /\
+Lemma xreq_nb_recv_repaired r g s c a :
+  (mq_get_waits (xq_urq s) = true -> xreq_step (mkMqfix true r g) s (PRecv c a true) = (s, [Complete a E_AGAIN None])) /\
   (mq_get_waits (xq_urq s) = false ->
-     exists s' outs m, xreq_step (mkMqfix true r) s (PRecv c a true) = (s', outs) /\ In (Complete a E_OK (Some m)) outs).
+     exists s' outs m, xreq_step (mkMqfix true r g) s (PRecv c a true) = (s', outs) /\ In (Complete a E_OK (Some m)) outs).
 Proof.
-  split; intros H; unfold xreq_step, nb_refused; cbn [mf_nb negb orb andb]; rewrite H.
+  split; intros H; unfold xreq_step, nb_refused; cbn [mf_nb mf_getput negb orb andb]; rewrite H.
   - reflexivity.
-  - destruct (mq_get_ready (xq_urq s) a H) as [m [q' [ev [E [Hin _]]]]]. rewrite E.
+  - destruct (mq_get_ready g (xq_urq s) a H) as [m [q' [ev [E Hin]]]]. rewrite E.
     do 3 eexists. split; [reflexivity|]. apply (in_map urq_out) in Hin. exact Hin.
 Qed.
-Lemma xrep_nb_recv_repaired r s c a :
-  (mq_get_waits (xp_urq s) = true -> xrep_step (mkMqfix true r) s (PRecv c a true) = (s, [Complete a E_AGAIN None])) /\
+Lemma xrep_nb_recv_repaired r g s c a :
+  (mq_get_waits (xp_urq s) = true -> xrep_step (mkMqfix true r g) s (PRecv c a true) = (s, [Complete a E_AGAIN None])) /\
   (mq_get_waits (xp_urq s) = false ->
-     exists s' outs m, xrep_step (mkMqfix true r) s (PRecv c a true) = (s', outs) /\ In (Complete a E_OK (Some m)) outs).
+     exists s' outs m, xrep_step (mkMqfix true r g) s (PRecv c a true) = (s', outs) /\ In (Complete a E_OK (Some m)) outs).
 Proof.
-  split; intros H; unfold xrep_step, nb_refused; cbn [mf_nb negb orb andb]; rewrite H.
+  split; intros H; unfold xrep_step, nb_refused; cbn [mf_nb mf_getput negb orb andb]; rewrite H.
   - reflexivity.
-  - destruct (mq_get_ready (xp_urq s) a H) as [m [q' [ev [E [Hin _]]]]]. rewrite E.
+  - destruct (mq_get_ready g (xp_urq s) a H) as [m [q' [ev [E Hin]]]]. rewrite E.
     do 3 eexists. split; [reflexivity|]. apply (in_map urq_out) in Hin. exact Hin.
 Qed.
 
@@ -72,21 +78,21 @@ Proof.
     do 2 eexists. split; [reflexivity|]. split; [left; reflexivity|reflexivity].
   - do 2 eexists. split; [reflexivity|]. split; [right; left; reflexivity|reflexivity].
 Qed.
-Lemma xreq_nb_send_repaired r s c a m :
-  (mq_put_waits (xq_uwq s) = true -> xreq_step (mkMqfix true r) s (PSend c a true m) = (s, [Complete a E_AGAIN None])) /\
+Lemma xreq_nb_send_repaired r g s c a m :
+  (mq_put_waits (xq_uwq s) = true -> xreq_step (mkMqfix true r g) s (PSend c a true m) = (s, [Complete a E_AGAIN None])) /\
   (mq_put_waits (xq_uwq s) = false ->
-     exists s' outs, xreq_step (mkMqfix true r) s (PSend c a true m) = (s', outs) /\ In (Complete a E_OK None) outs).
+     exists s' outs, xreq_step (mkMqfix true r g) s (PSend c a true m) = (s', outs) /\ In (Complete a E_OK None) outs).
 Proof.
-  split; intros H; unfold xreq_step, nb_refused; cbn [mf_nb negb orb andb]; rewrite H.
+  split; intros H; unfold xreq_step, nb_refused; cbn [mf_nb mf_getput negb orb andb]; rewrite H.
   - reflexivity.
   - destruct (mq_put_ready (xq_uwq s) a m H) as [q' [ev [E [Hin _]]]]. rewrite E.
     do 2 eexists. split; [reflexivity|]. apply in_flat_map. exists (EvPut a). split; [exact Hin|left; reflexivity].
 Qed.
 (* raw REP never has to wait for its upper write queue *)
-Lemma xrep_nb_send_repaired r s c a m :
-  exists s' outs, xrep_step (mkMqfix true r) s (PSend c a true m) = (s', Complete a E_OK None :: outs).
+Lemma xrep_nb_send_repaired r g s c a m :
+  exists s' outs, xrep_step (mkMqfix true r g) s (PSend c a true m) = (s', Complete a E_OK None :: outs).
 Proof.
-  unfold xrep_step, nb_refused. cbn [mf_nb negb orb andb].
+  unfold xrep_step, nb_refused. cbn [mf_nb mf_getput negb orb andb].
   destruct (xrep_route s m) as [s1 outs]. do 2 eexists. reflexivity.
 Qed.
 
@@ -137,3 +143,21 @@ Proof.
     destruct (pipe_qlen s p <? XREP_PIPE_SENDQ_CAP); inversion H; subst; auto.
   - right. inversion H; subst. auto.
 Qed.
+
+(* nni_msgq_aio_get and the writer side: a reader (here: a pipe that becomes ready)
+   takes the buffered message; pinned: the blocked writer stays blocked although
+   there is room; repaired: it moves into the buffer and completes *)
+Definition w_getput_ops : list pop :=
+  [PSetOpt None (OSendBuf 1); PSend None 1%N false (mkPmsg (be32 2147483649) [5%N]);
+   PSend None 2%N false (mkPmsg (be32 2147483650) [6%N]); PPipeStart 1%N PROTO_REP].
+Lemma xreq_get_runs_putq_refuted_w :
+  let s := xreq_run (mkMqfix true true false) xreq_init w_getput_ops in
+  mq_putq (xq_uwq s) <> [] /\ length (mq_q (xq_uwq s)) < mq_cap (xq_uwq s) /\
+  poll_w (xreq_poll s) = Some true /\
+  xreq_step (mkMqfix true true false) s (PSend None 9%N true (mkPmsg (be32 2147483651) [7%N])) = (s, [Complete 9%N E_AGAIN None]).
+Proof. vm_compute. split; [discriminate|]. split; [lia|]. split; reflexivity. Qed.
+Lemma xreq_get_runs_putq_repaired_w :
+  let s := xreq_run mf_repaired xreq_init w_getput_ops in
+  mq_putq (xq_uwq s) = [] /\ length (mq_q (xq_uwq s)) = 1 /\
+  In (Complete 2%N E_OK None) (snd (xreq_step mf_repaired (xreq_run mf_repaired xreq_init (firstn 3 w_getput_ops)) (PPipeStart 1%N PROTO_REP))).
+Proof. vm_compute. split; [reflexivity|]. split; [reflexivity|]. right. left. reflexivity. Qed.
